@@ -1,4 +1,4 @@
-"""Configuration of the C01 check (see lib/props.py).  Huffman half; the other half merges its theorem list and texts into this file."""
+"""Configuration of the C01 check (see lib/props.py): Huffman half + rANS/FSE/LZ half, merged."""
 P = {'id': 'C01',
  'level': 'proof',
  'theorems': ['pack_unpack',
@@ -28,7 +28,26 @@ P = {'id': 'C01',
               'from_frequencies_roundtrip',
               'merged_freqs_cover',
               'ctx_encode_total',
-              'xn_encode_total'],
+              'xn_encode_total',
+              'rans_step_inverse',
+              'rans_no_overflow',
+              'rans_roundtrip',
+              'parallel_roundtrip',
+              'normalize_wf',
+              'normalize_defined',
+              'table_of_counts_wf',
+              'rans_encode_refuses',
+              'rans_encode_defined',
+              'lz_parse_decodes',
+              'lz_sound_chooser_roundtrip',
+              'lz_decode_encode',
+              'alverson_exact',
+              'fse_mul_hi_old_refuted',
+              'fse_core_roundtrip',
+              'fse_encode_refuses',
+              'fse_encode_defined',
+              'fse_single_roundtrip',
+              'fse_roundtrip'],
  'trusted': ['Huffman half (this list; the rANS / FSE / dictionary half is described in design/C01_b.md). Modelled (M+S), src/entropy/huffman.rs as written: '
              "the byte packing loop of HuffmanEncoder::encode / ContextualHuffmanEncoder::encode and the decoders' bit order; "
              'BitStreamWriter::{new,write,finish}, BitStreamReader::{new,refill,peek,consume} with their u64 accumulators; HuffmanTree as code table + '
@@ -47,7 +66,19 @@ P = {'id': 'C01',
              'not modelled: the BinaryHeap construction of the tree (a parameter: the theorems hold for every merge order, `heap_run`; the harness reads the '
              'real table through HuffmanTree::get_code / serialize); the counting loops of HuffmanEncoder::new / ContextualHuffmanEncoder::new (which contexts '
              'get a tree, the top-1024 cut of order 2); the byte format of serialize/deserialize (oracle-only; malformed input is property C15); SIMD '
-             'intrinsics; estimate_compression_ratio; thread spawning (none on these paths)'],
+             'intrinsics; estimate_compression_ratio; thread spawning (none on these paths)',
+             'modelled (M+S), second half: src/entropy/rans.rs (Rans64Encoder::new/normalize_frequencies [model of '
+             'coq/C02]/encode_symbol/encode/encode_single/encode_parallel, Rans64Decoder::new/decode_symbol/decode/decode_single/decode_parallel) bit-exact '
+             'incl. the n-stream layout; src/entropy/dictionary.rs DictionaryCompressor::compress/decompress and OptimizedDictionaryCompressor::decompress '
+             'bit-exact; src/entropy/fse.rs FseTable::init_enc_symbol/mul_hi/encode_symbol/renormalize_encode/decode_symbol/renormalize_decode, '
+             'FseEncoder::compress/compress_single_internal/compress_parallel/merge_compressed_blocks, '
+             'FseDecoder::decompress/decompress_single/decompress_parallel bit-exact, with the normalised table (FseTable::new, f64 entropy normaliser) as a '
+             'parameter read from the real FseTable',
+             'spec-only cells (direct oracle, no mechanism model): AdaptiveRans64Encoder, OptimizedDictionaryCompressor::compress (its decoder and the generic '
+             'sound-chooser theorem are modelled), non-adaptive FseEncoder reusing a table, FseEncoder::with_dictionary, fse_compress/fse_zip/*_with_config '
+             'convenience functions, AdaptiveParallelEncoder::encode_adaptive (rANS and FSE selections), the AVX2 histogram',
+             'not modelled: the f64 normaliser of FSE (well-formedness of its output is a hypothesis of the FSE theorems), thread spawning in '
+             'compress_parallel, allocation; inputs above MAX_DECOMPRESSED_SIZE (100 MiB) which the decoders refuse'],
  'assumptions': ['usize is 64 bits; u8 symbols are the predicate b < 256 (bytes_ok)',
                  'the harness parses ContextualHuffmanEncoder::serialize() itself to obtain the context map and the code tables of a real encoder (trees are '
                  'private); that parser is trusted',
@@ -55,7 +86,12 @@ P = {'id': 'C01',
                  "SimdHuffmanEncoder / ContextualHuffmanEncoder::encode / encode_xN given the real tables; decoder output (or Err) on the real encoder's bytes "
                  'at the right length, at wrong lengths and on damaged bytes',
                  'crafted encoders are restricted to well-formed tables (prefix-free, non-empty codes of at most 255 bits, a one-symbol table carries the '
-                 'one-bit code from_frequencies gives it); what deserialize does with other tables is property C15'],
+                 'one-bit code from_frequencies gives it); what deserialize does with other tables is property C15',
+                 'usize is 64 bits; tables have 256 entries; raw counts fit u32',
+                 'payload length <= MAX_DECOMPRESSED_SIZE (100 MiB): the decoders refuse longer outputs, the theorems state the bound',
+                 'agreement of model and code is established on the generated cases only (normalised rANS tables, rANS encoder bytes and decoder output for '
+                 '1/2/4/8 streams, all five fields of the 256 FSE encoding symbols, FSE compressed bytes and decoder output incl. block containers, LZ token '
+                 'streams and decoder output)'],
  'level_text': 'Machine-checked Coq theorems, all closed under the global context, about a hand-written Gallina model of the Huffman family of '
                'src/entropy/huffman.rs, unbounded in the data, its length, the trees and the stream count: the packing loop and the u64 bit writer / reader '
                'refine a list of bits; the order-0 coder round-trips for every decoding tree and code table that agree (decidable wf_ht), and refuses - never '
@@ -67,13 +103,27 @@ P = {'id': 'C01',
                'cursor decoder; codes of any length); encoders whose trees cover all bytes never refuse and the interleaved loop terminates. Five refutation '
                'theorems with witnesses (replayed on the real code from corpus/C01) for the four defects repaired in the tree under verification. The model is '
                'tied to the code on every run by evaluating ~1450 generated cases in Coq against what the implementation returned, with the code tables read '
-               'from the real trees. SIMD, parallel front ends and serialised forms are decided by the round-trip oracle only.',
+               'from the real trees. SIMD, parallel front ends and serialised forms are decided by the round-trip oracle only. || rANS / FSE / LZ half: '
+               'Machine-checked Coq theorems about exact integer models of the rANS-64 coder (byte renormalisation, 1/2/4/8 interleaved streams), of the FSE '
+               'coder of this code base (rANS with 32-bit renormalisation, Alverson reciprocal division, header, stored path, block container and its sniffing '
+               'heuristic) and of the LZ dictionary coder: one encoder step is inverted by one decoder step with the state interval as invariant; '
+               'decode(encode(d)) = d for every well-formed table, every payload, every stream count and every length; the three-pass normaliser keeps the '
+               'table sum at 4096 and every present symbol at >= 1 slot; the reciprocal multiplication is an exact division without u64 wrap; the FSE decoder '
+               'reads four bytes exactly when the encoder wrote four, including the start-up phase; every valid LZ parse decodes to the payload whatever the '
+               'match chooser, and the greedy longest-match search is a sound chooser. Uncovered symbols are refused, never substituted. The models are tied '
+               'to the code by evaluating generated cases in Coq against what the implementation returned (tables, encoder bytes, decoder output).',
  'level_note': 'Trusted: Coq kernel + vm_compute; the hand-written model; the harness (generators, the serialize() parser, the dumb round-trip oracle). The '
-               'heap construction is a parameter of the theorems, not trusted.',
+               'heap construction is a parameter of the theorems, not trusted. || Trusted: Coq kernel + vm_compute; hand-written models; harness generators '
+               'and the round-trip oracle; the f64 FSE normaliser is a parameter of the theorems (its table is read from the real code per case).',
  'technique': 'Coq proof: bit strings as list bool with n_of_bits/bits_of_n, accumulators refined through representation predicates (wrep/rrep), induction '
               "over the data with the decoder state generalised, a lock-step simulation of the encoder's and decoder's round-robin loops with a "
               'pending-or-correct invariant on the output buffer; model/implementation differential check by vm_compute; direct round-trip oracle over every '
               'variant x training relation x boundary-biased payloads, incl. encoders built through the public deserialize from crafted tables (codes up to '
-              '255 bits)',
+              '255 bits); Coq proof: induction over the payload with a state-interval invariant, b-uniqueness of the renormalisation, Euclidean-division '
+              'arithmetic (lia/nia on isolated lemmas), list lemmas for the stream layout and the container; refutation by vm_compute with the witness '
+              'replayed on the real code; model/implementation differential check; direct round-trip oracle over every codec, preset, stream count and '
+              'training relation',
  'explanation': 'Unbounded round-trip theorems for Huffman order-0, contextual orders 0/1/2 and interleaved x1/x2/x4/x8 over arbitrary trees; oracle for SIMD '
-                '/ parallel / serialised forms.'}
+                '/ parallel / serialised forms. Unbounded round-trip theorems for rANS (n streams), FSE (single block and container, any normaliser) and LZ '
+                '(any sound match chooser); round-trip oracle for every entry point; eight defects found and repaired (findings/C01_b.txt).',
+ 'coq_deps': ['C02']}
